@@ -390,3 +390,7 @@ func (x *Explorer) Conv(a *Term, typ types.Type) *Term {
 	}
 	return x.T.mk(Term{Kind: KConv, Type: typ, Args: []*Term{a}})
 }
+
+// Lower / Upper expose the constant bounds known for a term on the current path.
+func (x *Explorer) Lower(t *Term) (int64, bool) { return x.lower(t) }
+func (x *Explorer) Upper(t *Term) (int64, bool) { return x.upper(t) }
